@@ -73,6 +73,17 @@ def gen(rng, tier):
                     reqs.append("C03 %s %s %s" % (op, wu(a), wu(b)))
     except Exception:  # noqa: BLE001
         pass
+    # scalar remainders / quotients whose dividend's TOP digit equals (or just exceeds / misses) the divisor, 2 … 5 digits:
+    # a "skip the leading division" shortcut must use `top < b`, never `top <= b` (C15-h1: SIGFPE in release)
+    for d in [2, 3, 7, (1 << 31) - 1, 1 << 31, (1 << 32) - 1, (1 << 32), (1 << 63), MAX, MAX - 1]:
+        for nd in (2, 3, 4, 5):
+            for top in (d, d - 1, d + 1 if d < MAX else d):
+                a = (top << (64 * (nd - 1))) + rng.randrange(1 << (64 * (nd - 1)))
+                for t in ("u8", "u16", "u32", "u64", "u128", "usize"):
+                    if d < (1 << {"u8": 8, "u16": 16, "u32": 32, "u64": 64, "u128": 128, "usize": 64}[t]):
+                        for op in ("rem_s", "div_s", "rem_assign_s", "div_assign_s"):
+                            reqs.append("C03 u.%s %s %s:%d" % (op, wu(a), t, d))
+                        reqs.append("C03 i.rem_s %s %s:%d" % (wi(-a), t, d))
     for n in range(0, 401 if tier == "thorough" else 200):
         reqs.append("C15 gen_biguint %d %d" % (n, rng.randrange(1 << 62)))
     return reqs
